@@ -82,8 +82,55 @@ def history_probe(ctx, n: int) -> None:
         history_case(rep, r)
 
 
+def cross_dtype_case(rep, r: dict) -> None:
+    """SI coordinates kept in float64 and read back into a beam of the *default* dtype (float32) — `from_xyz_pxpypz(xp, E)`
+    as a user calls it: the float32 beam must equal the float64 original to float32 round-off (the squared SI momenta,
+    ~1e-44, leave the float32 range: the conversion has to do its arithmetic in the precision it was handed)"""
+    import numpy as np
+    import torch
+    import cheetah
+    import lattices as LT
+    P, En = np.array(r["particles"], dtype=float), r["energy"]
+    b64 = LT.particle_beam(P, En)
+    xp = b64.to_xyz_pxpypz()
+    try:
+        b32 = cheetah.ParticleBeam.from_xyz_pxpypz(xp, torch.tensor(En, dtype=torch.float64))
+    except Exception as ex:
+        rep.count(f"cross-dtype-rejected:{type(ex).__name__}")
+        return
+    if b32.particles.dtype != torch.float32:
+        rep.count("cross-dtype:not-float32")      # the default dtype is not float32 here
+        return
+    A, C = b32.particles.double().numpy(), b64.particles.numpy()
+    sc = np.abs(C[:, :6]).max(axis=0) + 1e-300
+    sc[5] = max(sc[5], 0.25)      # delta is a difference of O(1) quantities (E/E0): float32 arithmetic leaves ~1e-7 absolute
+    sc[4] = max(sc[4], 1e-3)
+    d = np.abs(A[:, :6] - C[:, :6]) / sc
+    if not np.all(d <= 2e-6):
+        j = int(np.nanargmax(np.nanmax(d, axis=0)))
+        rep.fail("falsifier", f"C18|from_xyz_pxpypz|float64 SI coordinates into a float32 beam|{'x px y py tau delta'.split()[j]}",
+                 f"from_xyz_pxpypz(float64 SI coordinates) at E = {En!r} eV builds a float32 beam whose {'x px y py tau delta'.split()[j]} is off "
+                 f"by {float(np.nanmax(d[:, j]))!r} of its scale from the float64 original (float32 round-off is 6e-8)", r)
+
+
+def cross_dtype_probe(ctx, n: int) -> None:
+    import elements as E
+    import lattices as LT
+    rep, rng = ctx.report, ctx.rng
+    for i in range(n):
+        En = float(E.pick(rng, 8e5, 2e6, 6e6, 2e7, 1e8)) if i % 2 == 0 else float(E.energy(rng))
+        P = LT.gen_particles(rng, 10, energy=En)
+        P[:, 5] = rng.normal(0, 2e-3, size=P.shape[0])
+        r = {"kind": "cross_dtype", "particles": P.tolist(), "energy": max(En, 1.5 * E.MC2)}
+        rep.fals_cases += 1
+        rep.count("probe:cross-dtype")
+        rep.case(("cross_dtype", r["energy"] < 1e7), None)
+        cross_dtype_case(rep, r)
+
+
 def run(ctx) -> None:
     history_probe(ctx, ctx.n(20, 300))
+    cross_dtype_probe(ctx, ctx.n(16, 300))
     report_mismatches(ctx.report, "C18", run_bmadx_correspondence(ctx, "C18", ctx.n(15, 300)))
     run_xyz_correspondence(ctx, "C18", ctx.n(60, 1500))
     if F is not None:
@@ -93,6 +140,8 @@ def run(ctx) -> None:
 def corpus_case(ctx, r: dict) -> None:
     if r.get("kind") == "history":
         return history_case(ctx.report, r)
+    if r.get("kind") == "cross_dtype":
+        return cross_dtype_case(ctx.report, r)
     if F is not None and hasattr(F, "corpus_case"):
         F.corpus_case(ctx, r)
 
